@@ -14,7 +14,7 @@ RULE = ("every model class x input structure (DataArray, Dataset, list incl. >10
         "JSON round trip of all attributes, placeholders for input data) x serialisation before/after transform calls; plus the codec on "
         "generated attribute values directly; distinct by (kind, class, codec, structure, attr-kind)")
 CODECS = ["direct", "nc", "json", "placeholders+nc", "placeholders+json"]
-STRUCTS = ["DA", "DS", "LIST", "LIST12", "2s", "MI", "NaN"]
+STRUCTS = ["DA", "DS", "LIST", "LIST12", "2s", "MI", "NaN", "AUX"]
 ATTR_SETS = {
     "plain": {"units": "K", "long_name": "temperature"},
     "empty": {"units": "", "comment": ""},
@@ -144,6 +144,9 @@ def build(case):
             return [A] + [(A.isel(lon=[j % A.sizes["lon"]]) * (1 + 0.1 * j) + j).rename(lon=f"lon{j}") for j in range(11)]
         if st == "MI":
             return A.stack(s=("time", "lat"))
+        if st == "AUX":
+            # non-index coordinates: a scalar one (left behind by `.sel(level=500)`) and auxiliary ones along a feature / the sample dimension
+            return A.assign_coords(level=500.0, band=("lat", [f"b{j}" for j in range(A.sizes["lat"])]), season=("time", np.arange(A.sizes["time"]) % 4))
         if st == "NaN":
             B = A.copy()
             B.values[3] = np.nan
